@@ -112,4 +112,43 @@ def verifyProofForLast (nextVals : Nat → List Nat) (blockIdAt : Nat → Nat) (
   verifyBlock (signerIn (nextVals (h - 1)) h (blockIdAt h) round) (h == 0)
     (nextVals (h - 1)).length items
 
+/-! ### validator sets are values: `service/state/validatorlist.go`
+
+A `ValidatorSnapshot` is an immutable list of validators; a `ValidatorState` derived from it
+(`ValidatorStateFromSnapshot`) copies the list before its first change (`becomeChangeableInLock`
+→ `clone`).  `Replace`, `SetAt`, `Add`, `Remove` as coded, on the list of keys; `none` = error. -/
+
+/-- `validatorState.Replace(ov, nv)` -/
+def vsReplace (l : List Nat) (o n : Nat) : Option (List Nat) :=
+  match l.findIdx? (· == o) with
+  | none => none                                   -- "ValidatorNotFound"
+  | some i =>
+    if o = n then some l
+    else if (l.findIdx? (· == n)).isSome then none -- "ValidatorInUse"
+    else some (l.set i n)
+
+/-- `validatorState.SetAt(i, v)` -/
+def vsSetAt (l : List Nat) (i n : Nat) : Option (List Nat) :=
+  match l[i]? with
+  | none => none                                   -- "IndexOutOfRange"
+  | some o =>
+    if o = n then some l
+    else if (l.findIdx? (· == n)).isSome then none
+    else some (l.set i n)
+
+/-- `validatorState.Add(v)`: no-op when present -/
+def vsAdd (l : List Nat) (n : Nat) : List Nat :=
+  if (l.findIdx? (· == n)).isSome then l else l ++ [n]
+
+/-- `validatorState.Remove(v)`: the list and whether something was removed -/
+def vsRemove (l : List Nat) (n : Nat) : List Nat × Bool :=
+  match l.findIdx? (· == n) with
+  | none => (l, false)
+  | some i => (l.eraseIdx i, true)
+
+/-- `VerifyBlock` of a list of precommits by `keys` (all over the right target) against the
+    validator list value `vals`. -/
+def verifyAgainst (vals : List Nat) (keys : List Nat) : Res :=
+  verifyBlock (signerIn vals 0 0 0) false vals.length (keys.map (fun k => ({ key := k, height := 0, blockId := 0, round := 0 } : Sig)))
+
 end Goloop.C05
